@@ -37,6 +37,7 @@ for _extra in ("type-unset", "name-unset"):
     for _side in ("col1", "col2"):
         for _inl in ("inline", "block"):
             CELLS.append(f"endpoint-detached/delete-obj+{_extra}/{_side}/{_inl}")
+CELLS.append("detached-lookup/join-table-of-contained-m2m")
 CELLS.append("detached-lookup/abstract-table-never-added")
 CELLS.append("detached-lookup/column-of-detached-abstract-table")
 CELLS.append("detached-lookup/table-never-added+nameless-column")
@@ -468,7 +469,24 @@ class C17Engine(C10.C10Engine):
 
         if kind == "detached-lookup":
             reach = parts[1]
-            if reach == "abstract-table-never-added":
+            if reach == "join-table-of-contained-m2m":
+                # the generated join table of a many-to-many reference is in no database
+                if len(tables) < 1:
+                    raise Skip
+                ta, tb = g.choice(tables), g.choice(tables)
+                o = C.Reference("<>", real[g.choice(m[ta]["cols"])], real[g.choice(m[tb]["cols"])], name="jt_probe")
+                try:
+                    rdb.add(o)
+                except Exception:
+                    raise Skip
+                try:
+                    jt = o.join_table
+                    self.expect_raises(cell, "table.get_refs", lambda: jt.get_refs(), UDE, ctx)
+                    self.expect_raises(cell, "column.get_refs", lambda: jt.columns[0].get_refs(), UDE, ctx)
+                finally:
+                    rdb.refs[:] = [x for x in rdb.refs if x is not o]
+                    o.database = None
+            elif reach == "abstract-table-never-added":
                 o = C.Table("never", columns=[C.Column("id", "int")], abstract=True)
                 self.expect_raises(cell, "table.get_refs", lambda: o.get_refs(), UDE, ctx)
             elif reach == "column-of-detached-abstract-table":
